@@ -228,12 +228,25 @@ def _helpers(ctx: Ctx, r: RuleResult, pc, self_t: Term):
         r.ok('HplQuantifier: three hygiene errors (variable in own domain; re-binding; variable unused)')
     else:
         r.fail('HplQuantifier:hygiene', f'expected three HplSanityError raises in the domain/condition validators, found {len(msgs)}', qc.where)
-    cv = [v for v in qc.all_validators('condition')]
     unused_ok = False
-    for v in cv:
-        src = ast.unparse(v.node)
-        if 'used += 1' in src.replace(' ', ' ') and ('if not used' in src or 'used == 0' in src):
-            unused_ok = True
+    self_q = Sym('self', 'HplQuantifier')
+    for v in qc.all_validators('condition'):
+        ps = v.params()
+        outs = ev.run(v, {ps[0]: self_q, ps[2]: Sym('value')})
+        for o in outs:
+            if o.kind != 'raise' or 'HplSanityError' not in repr(o.value):
+                continue
+            for t, pol in norm_guards(o.guards):
+                if isinstance(t, Opaque) and t.tag.startswith('loop:') and not pol:
+                    cnt = t.tag[5:]
+                    for e in o.effects:
+                        if isinstance(e, Loop):
+                            for pg, flow, binds, effs in e.paths:
+                                val = dict(binds).get(cnt)
+                                inc = isinstance(val, Op) and val.op == '+' and Opaque(f'loopvar:{cnt}') in val.args and Const(1) in val.args
+                                matches = any(pol2 and isinstance(g, Op) and g.op == '==' and (Attr(self_q, 'variable') in g.args or any(isinstance(a, Attr) and a.name == 'name' for a in g.args)) for g, pol2 in norm_guards(pg))
+                                if inc and matches:
+                                    unused_ok = True
     if not unused_ok:
         r.fail('HplQuantifier:unused', 'the "variable never used" check (counter incremented per matching reference, error when zero) not found', qc.where)
 
